@@ -55,7 +55,8 @@ def _bind_equivalence(c0, c1, c2, nbefore, kind, x, y, k):
                 return x * 2 + y
             return fn
         if kind == 1:
-            return functools.partial(Callable(k, calls))
+            # a partial presetting the keyword that the call then overrides
+            return functools.partial(Callable(k, calls), y=k + 1)
         return Callable(k, calls)
 
     a = _chain(_chain(Executors.sync(), codes[:nbefore], k).bind(mk(calls_a)), codes[nbefore:], k)(x, y=y)
